@@ -141,6 +141,14 @@ namespace sim
 		}
 
 		int num_methods = std::uint8_t(m_out_buffer[1]);
+		if (num_methods == 0)
+		{
+			// nothing to choose from, and nothing more to read: a read of no
+			// bytes would wait for the next packet
+			std::printf("socks_connection::on_handshake1: no authentication methods offered\n");
+			close_connection();
+			return;
+		}
 
 		// read list of auth-methods
 		asio::async_read(m_client_connection, asio::buffer(&m_out_buffer[0],
@@ -364,6 +372,13 @@ namespace sim
 				// address. Now, with a domain name, one of those bytes was the
 				// length-prefix, but we still read 3 bytes already.
 				const int additional_bytes = len - 3;
+				if (additional_bytes == 0)
+				{
+					// the whole request is here already. There is nothing left to
+					// read, and a read of no bytes would wait for the next packet
+					on_request_domain_name(error_code(), 0);
+					break;
+				}
 				asio::async_read(m_client_connection, asio::buffer(&m_out_buffer[10], additional_bytes)
 					, std::bind(&socks_connection::on_request_domain_name
 						, shared_from_this(), std::placeholders::_1, std::placeholders::_2));
